@@ -7,6 +7,7 @@ reports which constructor branches (prefix/postfix/gap/touching combinations) we
 import random
 import re
 
+import math
 import numpy as np
 
 RULE = ("genomes of 1..4 chromosomes (sizes 1..8 quick / 1..60 thorough); per chromosome a sorted non-overlapping bedGraph drawn from every combination of "
@@ -260,8 +261,14 @@ def run(ctx):
                     exp_st = recs_of(ga.get_data())
                     ctx.check("streamed-construction", got_st == exp_st, "streamed-track/records-differ-from-in-memory-track", "bedGraph streamed in two chunks gives records %r, in memory %r" % (got_st[:4], exp_st[:4]), {"sizes": sizes, "records": flat, "cut": cutp, "got": got_st[:12], "expected": exp_st[:12]}, (tuple(sizes.items()), tuple(flat), cutp))
                     st_sum = bnp.compute((genome.get_track(mk_st()) * 2 + 1).sum())
-                    exp_sum = sum(float((d[n] * 2 + 1).sum()) for n in names)
-                    ctx.check("streamed-construction", abs(float(st_sum) - exp_sum) <= 1e-6 * max(1.0, abs(exp_sum)), "streamed-track/sum(t*2+1)-differs-from-dense", "sum(t*2+1) on the streamed track = %r, dense %r" % (float(st_sum), exp_sum), {"sizes": sizes, "records": flat, "cut": cutp}, (tuple(sizes.items()), tuple(flat), cutp, "sum"))
+                    if all(d[n].dtype.kind in "iub" for n in names):
+                        # whole numbers: the dense sum is exact (added as Python integers: per-chromosome sums of 2**57 cancel in some draws, a float total would not be the reference)
+                        exp_sum = sum(int((d[n] * 2 + 1).sum()) for n in names)
+                        sum_ok = (int(st_sum) == exp_sum) if np.asarray(st_sum).dtype.kind in "iu" else abs(float(st_sum) - exp_sum) <= 1e-6 * max(1.0, sum(float(np.abs(d[n].astype(float) * 2 + 1).sum()) for n in names))
+                    else:
+                        exp_sum = math.fsum(float(x) for n in names for x in (d[n] * 2 + 1))
+                        sum_ok = abs(float(st_sum) - exp_sum) <= 1e-6 * max(1.0, sum(float(np.abs(d[n] * 2 + 1).sum()) for n in names))
+                    ctx.check("streamed-construction", sum_ok, "streamed-track/sum(t*2+1)-differs-from-dense", "sum(t*2+1) on the streamed track = %r, dense %r" % (float(st_sum), exp_sum), {"sizes": sizes, "records": flat, "cut": cutp}, (tuple(sizes.items()), tuple(flat), cutp, "sum"))
             tracks.append(ga)
             denses.append(d)
         nrec = sum(len(v) for recs in recs_all for v in recs.values())
